@@ -1019,7 +1019,7 @@ def _run_isolated(args, procs, tier):
     import threading
 
     budget = int(os.environ.get("VERIF_CASE_BUDGET", "600" if tier == "quick" else "3600"))
-    chunk_size = int(os.environ.get("VERIF_CHUNK", "4"))
+    chunk_size = int(os.environ.get("VERIF_CHUNK", "4" if tier == "quick" else "1"))
     todo = queue.Queue()
     order = sorted(range(len(args)), key=lambda i: 0 if args[i][2].get("heavy") else 1)  # heavy cases first, alone
     for i in order:
